@@ -182,7 +182,7 @@ def rb_setup():
     import pygfunction as gt
     import ghedesigner.borehole_heat_exchangers as B
     import ghedesigner.utilities as U
-    st = dict(calls=[], tags={}, hf={}, solves={})
+    st = dict(calls=[], tags={}, hf={}, solves={}, flags={})
 
     def tag(obj):
         return st['tags'].setdefault(id(obj), len(st['tags']))
@@ -251,10 +251,20 @@ def rb_setup():
 
     def brentq_stub(f, lo, hi, xtol=2e-12, rtol=8.9e-16, maxiter=100, **kw):
         e = E()
-        x = Sym(e.fresh('root'))
-        e.add(z3.And(x.t >= _t(lo), x.t <= _t(hi)))
-        fx = f(x)                  # scipy's brentq returns the last iterate it evaluated
-        e.assume(fx == 0)          # root within xtol/rtol; abstracted as exact
+        r = Sym(e.fresh('root'))
+        e.add(z3.And(r.t >= _t(lo), r.t <= _t(hi)))
+        fr = f(r)
+        e.assume(fr == 0)
+        if f.__name__ == 'objective_pipe_conductivity' and st['flags'].get('concrete_flow') and bool(r >= 0.01):
+            # (below 0.01 W/m-K an absolute tolerance of 1e-6 on the conductivity no longer bounds the resistance to 0.1 % by contract,
+            # although scipy converges far tighter in practice: the root is taken as exact there)
+            # scipy's contract: the returned point (the last iterate evaluated) is within xtol + rtol |x| of a root - with the
+            # tolerances solve_root actually passes; the objective is evaluated there last
+            x = Sym(e.fresh('ret'))
+            e.add(z3.And(x.t >= _t(lo), x.t <= _t(hi), x.t - r.t <= _t(xtol) + _t(rtol) * x.t, r.t - x.t <= _t(xtol) + _t(rtol) * x.t))
+            f(x)
+        else:
+            x = r                  # grout objective: uninterpreted response, the tolerance cannot be propagated - exact root
         st['solves'][f.__name__]['brentq'] = True
         return x
 
@@ -289,6 +299,9 @@ def rb_body(v, geom, flowcase=None):
     if sym:
         for part in B.RB_STATE.values():      # the stub state belongs to one path: fresh coefficients (with their bounds) on every path
             part.clear()
+        # with concrete convection coefficients brentq's tolerance contract is propagated (the 0.1 % claim is then decidable); with
+        # abstract coefficients the root is taken as exact
+        B.RB_STATE['flags']['concrete_flow'] = flowcase is not None
     k_g = v.real('k_g', 0.3, 3.5)
     k_s = v.real('k_s', 0.5, 5.0)
     k_p = v.real('k_p', 0.2, 1.0)
@@ -363,9 +376,10 @@ def rb_body(v, geom, flowcase=None):
         out['stored_resistances_match_final_parameters'] = conj([snap[0] == single.grout.k, single.k_g == single.grout.k, snap[1] == single.R_fp])
         out['rb_matched_when_root_bracketed'] = implies(rg['bracketed'], rb_eq == rb_orig)
         out['grout_k_is_the_root'] = implies(rg['bracketed'], single.grout.k == rg['returned'])
-        out['rfp_matched_when_root_bracketed'] = implies(rp['bracketed'], single.R_fp == target)
+        rel = lambda a, b: (a - b <= 1e-3 * b) & (b - a <= 1e-3 * b)      # noqa: E731 - "reproduces": within 0.1 %
+        out['rfp_matched_when_root_bracketed'] = implies(rp['bracketed'], rel(single.R_fp, target))
         out['pipe_k_consistent'] = implies(rp['bracketed'], single.pipe.k == rp['returned'])
-        out['rfp_matched'] = single.R_fp == target            # unconditional: claimed only where the convection coefficients are concrete
+        out['rfp_matched'] = rel(single.R_fp, target)          # unconditional: claimed only where the convection coefficients are concrete
         out['targets_as_documented'] = conj([abs(rconv - ind_conv) <= 1e-9 * ind_conv, abs(rpipe - ind_pipe) <= 1e-9 * ind_pipe])
         out['same_flow_and_soil'] = conj([single.m_flow_borehole is m, single.soil is soil, single.grout is not grout, grout.k is k_g, orig.pipe.k is k_p or g['kind'] != 'du'])
     else:
